@@ -114,7 +114,7 @@ def universe_frame(u: dict) -> Any:
     return df
 
 
-def take(u: dict, ids: list[int], *, container: str = "pandas", index: str = "rid", mutate: Optional[dict] = None) -> Any:
+def take(u: dict, ids: list[int], *, container: str = "pandas", index: str = "rid", mutate: Optional[dict] = None, recat: Optional[int] = None) -> Any:
     """Build a data container holding universe rows ``ids`` (any subset / duplication / order).
 
     ``index``: 'rid' keeps row ids as labels (labels tied to content), 'range' gives a fresh RangeIndex,
@@ -123,6 +123,13 @@ def take(u: dict, ids: list[int], *, container: str = "pandas", index: str = "ri
     import pandas as pd
 
     df = universe_frame(u).iloc[list(ids)].copy()
+    if recat is not None:
+        # same values, same set of categories, different *declared order* of every category-dtype column
+        for name in df.columns:
+            if isinstance(df[name].dtype, pd.CategoricalDtype):
+                cats = list(df[name].dtype.categories)
+                random.Random(core.h64("recat", recat, name)).shuffle(cats)
+                df[name] = pd.Series(pd.Categorical(df[name].to_numpy(dtype=object), categories=cats), index=df.index)
     if mutate:
         df = apply_fault(df, u, ids, mutate)
     if index == "range":
@@ -210,7 +217,7 @@ def numeric_atoms(rng: random.Random, v: str, *, rich: bool = True) -> dict:
     n = q(v)
     table = [
         ("lookup", 6), ("center", 4), ("scale", 3), ("standardize", 2), ("poly", 3), ("bs", 3), ("cr", 2), ("cc", 1), ("cs", 1),
-        ("I", 2), ("np", 2), ("brace", 1), ("Q", 1), ("Cnum", 1), ("scale_nc", 1),
+        ("I", 2), ("np", 2), ("brace", 1), ("Q", 1), ("Cnum", 1), ("scale_nc", 1), ("usr_center", 1.5), ("usr_sq", 1), ("usr_offset", 0.7), ("nested", 2.5),
     ]
     kind = core.weighted(rng, table if rich else table[:4])
     a: dict[str, Any] = {"vars": [v], "kind": "num", "cls": "num_py", "stateful": False, "bounded": False, "mean_based": False}
@@ -253,7 +260,34 @@ def numeric_atoms(rng: random.Random, v: str, *, rich: bool = True) -> dict:
         a.update(expr=f"Q('{v}')", cls="ident")
     elif kind == "Cnum":
         a.update(expr=f"C({n})", cls="C", kind="cat")
+    elif kind == "nested":
+        # a stateful call nested inside a larger factor (its state key is the inner call, not the factor)
+        a.update(expr=rng.choice([f"scale(center({n}))", f"I(center({n}) ** 2)", f"exp(scale({n}) / 4)", f"np.abs(standardize({n}))",
+                                  f"poly(center({n}), degree=2)", f"center(log({n} * {n} + 1))", f"I(scale({n}, center=False) + poly({n})[:, 0])"]),
+                 stateful=True, mean_based=True)
+    elif kind == "usr_center":
+        a.update(expr=f"usr_center({n})", stateful=True, mean_based=True, ctx=True)
+    elif kind == "usr_sq":
+        a.update(expr=f"usr_sq({n})", ctx=True)
+    elif kind == "usr_offset":
+        a.update(expr=f"I({n} + usr_offset)", ctx=True)
     return a
+
+
+def user_context() -> dict:
+    """The caller's context mapping: a user-defined *stateful* transform, a stateless callable and a constant.
+    Rebuilt from scratch for every call (a restarted process has fresh function objects)."""
+    import numpy as np
+    from formulaic.utils.stateful_transforms import stateful_transform
+
+    @stateful_transform
+    def usr_center(data, _state=None):
+        data = np.asarray(data, dtype=float)
+        if "m" not in _state:
+            _state["m"] = float(np.nanmean(data))
+        return data - _state["m"]
+
+    return {"usr_center": usr_center, "usr_sq": (lambda x: x * x), "usr_offset": 1.5}
 
 
 CONTRASTS = [
@@ -315,7 +349,10 @@ def gen_formula(rng: random.Random, u: dict, *, rich: bool = True, structured_p:
             deg = core.weighted(rng, [(1, 6), (2, 3), (3, 1)])
             fs = [atom()["expr"] for _ in range(deg)]
             op = ":" if rng.random() < 0.7 or deg == 1 else "*"
-            terms.append(op.join(fs))
+            t = op.join(fs)
+            if op == ":" and rng.random() < 0.12:
+                t = rng.choice(["2.5", "3", "0.5"]) + ":" + t  # numerically scaled term
+            terms.append(t)
         s = " + ".join(terms)
         r = rng.random()
         if r < 0.12:
